@@ -351,6 +351,10 @@ def probe_all(obj, ev, K, ncb, ext):
             reads.append((("Hk", k), lambda c, k=k: c.get_Hk_with_ext_int(k)))
     if ext:
         reads += [("big_H_no_ext", lambda c: c.big_H_no_ext_int), ("H_no_ext", lambda c: c.H_no_ext_int)]
+    # negative indexes address receivers / blocks from the end (H is an array of blocks): same blocks as K - 1, ncb - 1
+    reads.append((("Hk", K - 1), lambda c: c.get_Hk(-1)))
+    reads.append((("Hkl", K - 1, ncb - 1), lambda c: c.get_Hkl(-1, -1)))
+    reads.append((("Hkl", 0, ncb - 1), lambda c: c.get_Hkl(-K, -1)))
     c = copy.deepcopy(obj)
     rot = probe_all.counter % len(reads)
     probe_all.counter += 1
@@ -414,6 +418,9 @@ def _run_path(job):
                     if post["noise"] == "pos" and not (0.01 < np.mean(np.abs(ln) ** 2) < 5):
                         viol.append({"step": i, "op": e["ret"], "what": "noise power implausible for variance 0.5"})
                     y = y + ln
+                    drv.noise_kept = np.array(ln)
+                else:
+                    drv.noise_kept = None
                 if drv.filters is not None:
                     from scipy.linalg import block_diag
                     y = block_diag(*drv.filters).conj().T.dot(y)
@@ -431,6 +438,17 @@ def _run_path(job):
                 if isinstance(val, np.ndarray) and val.dtype != object:
                     held.append((f"{kind} returned at step {i}", val, np.array(val)))
                     held[:] = held[-6:]
+        if got is None or got[0] != "rx":
+            # last_noise is the noise that was added to the last received block, whatever was set or read since
+            nk = getattr(drv, "noise_kept", "unset")
+            if nk != "unset" if isinstance(nk, str) else True:
+                try:
+                    cur = drv.obj.last_noise
+                    if nk is not None and (cur is None or np.shape(cur) != nk.shape or not np.array_equal(np.asarray(cur), nk)):
+                        viol.append({"step": i, "op": e["ret"], "what": "last_noise no longer reports the noise added by the last corrupt call "
+                                     "(a later call changed it)"})
+                except Exception as ex:          # noqa
+                    viol.append({"step": i, "op": e["ret"], "what": f"reading last_noise raised {type(ex).__name__}: {ex}"})
         for what, ref, cp in held:
             if not np.array_equal(ref, cp):
                 viol.append({"step": i, "op": e["ret"], "what": f"the array {what} was changed by a later call"})
@@ -543,11 +561,60 @@ def run(ctx):
                          "BigHNoExt", "HNoExt", "GetHkNoExt", "GetHkWithExt", "Corrupt"])
     ctx.exhaustive = True
     ctx.notes["paths_replayed"] = n
+    # (rel) antenna counts of narrow integer types whose total exceeds the type's range: the block views are slices of
+    # big_H at the cumulative counts
+    for dt in (np.int8, np.int16):
+        d = narrow_counts_case(dt)
+        ctx.ok(("narrow-counts", np.dtype(dt).name))
+        if d:
+            ctx.violation(f"narrow-counts: {d}", {"kind": "narrow", "dtype": np.dtype(dt).name})
     from . import c08_trace
     c08_trace.run(ctx)
 
 
+def narrow_counts_case(dt):
+    try:
+        from pyphysim.channels.multiuser import MultiUserChannelMatrix, MultiUserChannelMatrixExtInt
+        big = 50
+        rs = np.random.RandomState(5)
+        for cls in (MultiUserChannelMatrix, MultiUserChannelMatrixExtInt):
+            ext = cls is MultiUserChannelMatrixExtInt
+            K = 2 if ext else 3
+            nr = np.array([big, big, big + 3][:K], dtype=dt)         # int8: the cumulative counts pass 127
+            nt = np.array([big + 2, big, big][:K], dtype=dt)
+            nte = np.array([big], dtype=dt) if ext else np.array([], dtype=dt)
+            rows = int(nr.astype(int).sum())
+            cols = int(nt.astype(int).sum()) + int(nte.astype(int).sum())
+            M = rs.randn(rows, cols) + 1j * rs.randn(rows, cols)
+            o = cls()
+            if ext:
+                o.init_from_channel_matrix(M.copy(), nr, nt, K, nte)
+            else:
+                o.init_from_channel_matrix(M.copy(), nr, nt, K)
+            cr = np.cumsum([0] + [int(x) for x in nr])
+            cc = np.cumsum([0] + [int(x) for x in nt] + [int(x) for x in nte])
+            name = f"{cls.__name__} with {np.dtype(dt).name} antenna counts {nr.tolist()} x {nt.tolist() + nte.tolist()}"
+            if not np.array_equal(np.asarray(o.big_H), M):
+                return f"{name}: big_H is not the matrix given"
+            for k in range(K):
+                if not np.array_equal(np.asarray(o.get_Hk(k)), M[cr[k]:cr[k + 1], :]):
+                    return f"{name}: get_Hk({k}) is not rows {cr[k]}..{cr[k + 1]} of big_H (shape {np.asarray(o.get_Hk(k)).shape})"
+                for l in range(len(cc) - 1):
+                    if not np.array_equal(np.asarray(o.get_Hkl(k, l)), M[cr[k]:cr[k + 1], cc[l]:cc[l + 1]]):
+                        return (f"{name}: get_Hkl({k}, {l}) is not the block of big_H at the cumulative counts "
+                                f"(shape {np.asarray(o.get_Hkl(k, l)).shape})")
+        return None
+    except Exception as ex:      # noqa
+        return f"{np.dtype(dt).name} antenna counts: {type(ex).__name__}: {ex}"
+
+
 def replay(ctx, data):
+    if data["case"].get("kind") == "narrow":
+        d = narrow_counts_case(np.dtype(data["case"]["dtype"]).type)
+        ctx.ok()
+        if d:
+            ctx.violation(d, data)
+        return
     c = data["case"]
     amps = {k: np.array(v) for k, v in c["amps"].items()}
     okc, viol = run_path((c["ext"], c["splits"], amps, c["path"], c["seed"]))
